@@ -356,6 +356,11 @@ func (u *Unit) verifyFunction(known []KnownFinding, prop string) {
 		}
 		u.checkFrame(ct, r, alloc0, penv)
 		u.retReach = append(u.retReach, r.reach)
+		where := ""
+		if r.blk != nil && len(r.blk.Instrs) > 0 {
+			where = u.where(r.blk.Instrs[len(r.blk.Instrs)-1])
+		}
+		u.retWhere = append(u.retWhere, where)
 	}
 	// assert@call clauses that never matched a call are failures of the contract
 	for k, ca := range ct.CallAsserts {
@@ -584,13 +589,47 @@ func vacuityProbe(u *Unit, workDir string, timeout int) string {
 	o := &Obligation{Name: u.FnName + "#vacuity", Pos: pos}
 	q := u.queryText(o, nil, "(assert "+or(u.retReach...).S+")")
 	r := runQuery(workDir, o.Name, q, timeout, false)
-	switch r.Status {
-	case "unsat":
+	if r.Status == "unsat" {
 		return "VACUOUS: assumptions are contradictory (no return is reachable)"
-	case "sat":
-		return "ok (" + r.Solver + " found a terminating execution consistent with all assumptions)"
 	}
-	return "ok? (no solver could construct a model; premises not shown contradictory)"
+	// each return separately: a return that the assumptions make unreachable means every postcondition
+	// is vacuous on that path (legitimate for error paths a trusted contract excludes, fatal for the rest:
+	// the contract has to say `opt deadreturns=allowed` to accept them)
+	dead := []string{}
+	if len(u.retReach) > 1 {
+		var wg sync.WaitGroup
+		res := make([]string, len(u.retReach))
+		for i := range u.retReach {
+			wg.Add(1)
+			go func(i int) {
+				defer wg.Done()
+				oi := &Obligation{Name: fmt.Sprintf("%s#reach.return%d", u.FnName, i), Pos: pos}
+				qi := u.queryText(oi, nil, "(assert "+u.retReach[i].S+")")
+				res[i] = runQuery(workDir, oi.Name, qi, timeout, false).Status
+			}(i)
+		}
+		wg.Wait()
+		for i, s := range res {
+			if s == "unsat" {
+				w := fmt.Sprint(i)
+				if i < len(u.retWhere) && u.retWhere[i] != "" {
+					w = u.retWhere[i]
+				}
+				dead = append(dead, w)
+			}
+		}
+	}
+	deadNote := ""
+	if len(dead) > 0 {
+		deadNote = fmt.Sprintf("; DEAD returns (unreachable under the assumptions): %s of %d", strings.Join(dead, ","), len(u.retReach))
+		if u.Contract == nil || u.Contract.Opts["deadreturns"] != "allowed" {
+			return "VACUOUS: return(s) " + strings.Join(dead, ",") + " of " + fmt.Sprint(len(u.retReach)) + " are unreachable under the assumptions (postconditions hold vacuously there); say `opt deadreturns=allowed` if the excluded paths are error paths a trusted contract rules out"
+		}
+	}
+	if r.Status == "sat" {
+		return "ok (" + r.Solver + " found a terminating execution consistent with all assumptions)" + deadNote
+	}
+	return "ok? (no solver could construct a model; premises not shown contradictory)" + deadNote
 }
 
 // ---- report -------------------------------------------------------------------------------------
